@@ -1004,13 +1004,32 @@ void bn_rec_frb(bn_t *ki, int sub, const bn_t k, const bn_t x, const bn_t n,
 					bn_neg(ki[i], ki[i]);
 				}
 			}
-			/* A scalar below n has one more digit only when n = x^sub + 1 and
-			 * k = n - 1 = x^sub (e.g. GMT8); there x^sub = -1 mod n. */
+			/* A scalar below n has one more digit when n > |x|^sub. Fold it
+			 * back with x^sub = x^sub - n (mod n), which has lower degree in x
+			 * for the cyclotomic families: -1 when n = x^sub + 1 (GMT8, FM16,
+			 * AFG16), x^3 - 1 when n = x^6 - x^3 + 1 (FM18). */
 			if (!bn_is_zero(v[0])) {
+				bn_set_dig(u[1], 1);
+				for (i = 0; i < sub; i++) {
+					bn_mul(u[1], u[1], x);
+				}
+				bn_sub(u[1], u[1], n);
+				bn_mul(u[1], u[1], v[0]);
 				if (sk == RLC_NEG) {
-					bn_add(ki[0], ki[0], v[0]);
-				} else {
-					bn_sub(ki[0], ki[0], v[0]);
+					bn_neg(u[1], u[1]);
+				}
+				l = bn_sign(u[1]);
+				bn_abs(u[1], u[1]);
+				for (i = 0; i < sub; i++) {
+					bn_mod(u[2], u[1], u[0]);
+					bn_div(u[1], u[1], u[0]);
+					if ((sx == RLC_NEG) && (i % 2 != 0)) {
+						bn_neg(u[2], u[2]);
+					}
+					if (l == RLC_NEG) {
+						bn_neg(u[2], u[2]);
+					}
+					bn_add(ki[i], ki[i], u[2]);
 				}
 			}
 		} else {
